@@ -104,4 +104,16 @@ PROPS = {
                ["Uniseg.Properties.C17.functional_api_reaches_no_allocator", "Uniseg.Properties.C17.stack_stays_reachable"],
                [], stages=("ALLOC",), oracle_stages=["ALLOC"], n_quick=6000,
                trusted_extra=["go tool objdump's listing of the harness binary, the allow-list of non-allocating runtime entry points, and the compiler used for the build (escape analysis is a property of the inspected binary)"]),
+    "C11": rel("Uniseg.Properties.C11",
+               ["Uniseg.Properties.C11.restart", "Uniseg.Properties.C11.word_restart", "Uniseg.Properties.C11.sentence_restart",
+                "Uniseg.Properties.C11.line_restart", "Uniseg.Properties.C11.grapheme_restart", "Uniseg.Auto.restart_at_boundary",
+                "Uniseg.Cert.Grapheme.valid", "Uniseg.Cert.Word.valid", "Uniseg.Cert.Sentence.valid", "Uniseg.Cert.Line.valid"],
+               ["C11"], stages=("E1", "E3", "E5"), cert_algs=["gr", "wb", "sb", "lb"], e5only="fg,fw,fs,fl"),
+    "C12": rel("Uniseg.Properties.C12",
+               ["Uniseg.Properties.C12.gb_cr_lf", "Uniseg.Properties.C12.wb_cr_lf", "Uniseg.Properties.C12.sb_cr_lf", "Uniseg.Properties.C12.lb_cr_lf",
+                "Uniseg.Properties.C12.cr_lf_letters", "Uniseg.Properties.C12.must_iff", "Uniseg.Properties.C12.last_segment_must",
+                "Uniseg.Properties.C12.last_cluster_flags", "Uniseg.Properties.C12.cutsV_last",
+                "Uniseg.Properties.C04.line_segments_eq_uax14", "Uniseg.Properties.C04.mustBreak_iff"],
+               ["C12"], stages=("E1", "E2", "REF", "E3", "E5", "SPEC"), oracle_stages=["SPEC", "REF"], cert_algs=["gr", "wb", "sb", "lb"],
+               e2props="l,L", e5only="fl,st,sts,htlb", spec_kinds="fg,fw,fs,fl"),
 }
